@@ -118,6 +118,19 @@ func load(c *Case, env *Env) (m *gonnx.Model, o outcome) {
 	switch c.Reader {
 	case "", "bytes":
 		o = guard(func() (err error) { m, err = gonnx.NewModelFromBytes(c.Data); return })
+	case "proto", "proto-empty":
+		// the caller parses the file itself and hands gonnx the message (gonnx.NewModel is exported for that). For
+		// "proto-empty" the message is in the state Go code that BUILDS such messages leaves it in: repeated fields
+		// and byte fields that hold nothing are empty, non-nil slices (make([]float32, 0, n), []byte{}) - the same
+		// message as far as protobuf is concerned (proto.Equal), a different one to code that tests `!= nil`.
+		mp := &onnx.ModelProto{}
+		if err := proto.Unmarshal(c.Data, mp); err != nil {
+			return nil, outcome{kind: "error", err: errors.New("caller's own protobuf parser refused the bytes")}
+		}
+		if c.Reader == "proto-empty" {
+			emptySlices(mp.GetGraph(), 0)
+		}
+		o = guard(func() (err error) { m, err = gonnx.NewModel(mp); return })
 	case "file":
 		p := filepath.Join(env.Scratch, fmt.Sprintf("m-%d.onnx", os.Getpid()))
 		if err := os.WriteFile(p, c.Data, 0o644); err != nil {
@@ -166,6 +179,55 @@ func load(c *Case, env *Env) (m *gonnx.Model, o outcome) {
 	return m, o
 }
 
+// emptySlices turns every nil repeated/bytes payload field of every tensor in the graph (initializers, tensor
+// attributes, subgraphs) into an empty non-nil slice.
+func emptySlices(g *onnx.GraphProto, depth int) {
+	if g == nil || depth > 8 {
+		return
+	}
+	fix := func(tp *onnx.TensorProto) {
+		if tp == nil {
+			return
+		}
+		if tp.FloatData == nil {
+			tp.FloatData = make([]float32, 0, 4)
+		}
+		if tp.DoubleData == nil {
+			tp.DoubleData = make([]float64, 0, 4)
+		}
+		if tp.Int32Data == nil {
+			tp.Int32Data = make([]int32, 0, 4)
+		}
+		if tp.Int64Data == nil {
+			tp.Int64Data = make([]int64, 0, 4)
+		}
+		if tp.Uint64Data == nil {
+			tp.Uint64Data = make([]uint64, 0, 4)
+		}
+		if tp.StringData == nil {
+			tp.StringData = [][]byte{}
+		}
+		if tp.RawData == nil {
+			tp.RawData = []byte{}
+		}
+		if tp.ExternalData == nil {
+			tp.ExternalData = []*onnx.StringStringEntryProto{}
+		}
+	}
+	for _, tp := range g.GetInitializer() {
+		fix(tp)
+	}
+	for _, n := range g.GetNode() {
+		for _, a := range n.GetAttribute() {
+			fix(a.GetT())
+			for _, t := range a.GetTensors() {
+				fix(t)
+			}
+			emptySlices(a.GetG(), depth+1)
+		}
+	}
+}
+
 // MakeZip wraps model bytes in a one-entry archive.
 func MakeZip(data []byte, deflate bool) []byte {
 	var buf bytes.Buffer
@@ -192,7 +254,7 @@ func MakeZip(data []byte, deflate bool) []byte {
 // over a fault-free view of the same archive bytes.
 func modelBytes(c *Case) ([]byte, bool) {
 	switch c.Reader {
-	case "", "bytes", "file":
+	case "", "bytes", "file", "proto", "proto-empty":
 		return c.Data, true
 	case "file-missing", "file-dir":
 		return nil, false
@@ -486,6 +548,28 @@ func Check18(c *Case, env *Env) []verdict {
 	}
 	var ro outcome
 	ro = guard(func() error { _, err := m.Run(in); return err })
+	// "makes Run fail" is not a property of the first Run only: asked again (same Model, fresh inputs), the answer
+	// must be as unacceptable to the caller as the first time. The worst of three answers is judged.
+	rank := func(o outcome) int {
+		switch {
+		case o.kind == "panic":
+			return 3
+		case o.kind == "ok":
+			return 2
+		case !errors.Is(o.err, ops.ErrUnsupportedOperator):
+			return 1
+		}
+		return 0
+	}
+	for k := 0; k < 2; k++ {
+		in2, _ := synthInputs(mp)
+		if o2 := guard(func() error { _, err := m.Run(in2); return err }); rank(o2) > rank(ro) {
+			ro = o2
+			if st != nil {
+				st.Probe("unknown_operator_answer_changed_on_a_later_run")
+			}
+		}
+	}
 	op := nodes[first].GetOpType()
 	switch {
 	case ro.kind == "panic":
